@@ -157,12 +157,38 @@ static void explicit_conversion_probe(Rng& g) {
 	nontrivial(true);
 }
 
+#if C12_E == 0
+// element_transformed / static_array_cast / as_const of RE-BASED sources (first indices other than 0), read-only and mutable: the projection has the source's
+// extensions - first indices included -, its element at every SOURCE index is f(source element), and an array built from it inherits those extensions
+static void rebased_projection_probe(Rng& g) {
+	L const r = g.in(1, 3), q = g.in(1, 4), t = g.in(1, 2), b0 = g.in(-3, 5), b1 = g.in(-2, 4), b2 = g.in(-1, 3); int const form = int(g.below(6)); static char const* FN[] = {"const-array.element_transformed(value)", "const-array.element_transformed(&P::c)", "mutable-array.element_transformed(&P::c)", "const-view.element_transformed(value)", "const-array.static_array_cast", "3-D const-array.element_transformed(value)"};
+	describe(std::string("re-based projection probe ") + FN[form]); sig_mix("rebased-projection"); sig_mix(std::uint64_t(form)); op((std::string("projection(re-based source):") + FN[form]).c_str()); count(std::string("rebased-projection:") + FN[form]);
+	std::string const K = std::string("C12:projection(re-based source):") + FN[form] + ":"; auto f = [](P const& p) { return long(p.b) * 3 + 1; };
+	multi::extensions_t<2> const ex({b0, b0 + r}, {b1, b1 + q}); multi::array<P, 2> A(ex); { int k = 0; for(auto& e : A.elements()) { ++k; e = P{double(k), k, 100 + k}; } }
+	auto chk2 = [&](auto&& pv, auto&& val) { if(!(pv.extensions() == ex)) { violation(K + "extents", "the projected view does not have the source's extensions (leading first index " + std::to_string(L(pv.extension().first())) + ", source " + std::to_string(b0) + ")"); return; }
+		for(L i = b0; i < b0 + r; ++i) for(L j = b1; j < b1 + q; ++j) if(!(pv[i][j] == val(A[i][j]))) { violation(K + "value", "the projected element at a source index is not f(source element at that index)"); return; } };
+	switch(form) {
+	case 0: { auto&& pv = std::as_const(A).element_transformed(decltype(f)(f)); chk2(pv, f); multi::array<long, 2> C(pv); if(!(C.extensions() == ex)) violation(K + "array-extents", "an array built from the projection does not inherit the source's extensions"); break; }
+	case 1: { auto&& pv = std::as_const(A).element_transformed(&P::c); chk2(pv, [](P const& p) { return p.c; }); break; }
+	case 2: { auto&& pv = A.element_transformed(&P::c); chk2(pv, [](P const& p) { return p.c; }); pv[b0][b1] = 4711; if(A[b0][b1].c != 4711) violation(K + "write-through", "a write through the projection of a re-based array did not land in the element of the same index"); break; }
+	case 3: { auto const& cv = std::as_const(A)(); auto&& pv = cv.element_transformed(decltype(f)(f)); chk2(pv, f); break; }
+	case 4: { multi::array<int, 2> I(ex); { int k = 0; for(auto& e : I.elements()) e = ++k; } auto&& pv = std::as_const(I).template static_array_cast<int const>(); if(!(pv.extensions() == ex)) violation(K + "extents", "static_array_cast of a re-based array changes the extensions"); else if(std::addressof(pv[b0][b1]) != std::addressof(I[b0][b1])) violation(K + "identity", "static_array_cast designates another element at the same index"); break; }
+	default: { multi::extensions_t<3> const ex3({b0, b0 + r}, {b1, b1 + q}, {b2, b2 + t}); multi::array<P, 3> A3(ex3); { int k = 0; for(auto& e : A3.elements()) { ++k; e = P{double(k), k, 100 + k}; } } auto&& pv = std::as_const(A3).element_transformed(decltype(f)(f));
+		if(!(pv.extensions() == ex3)) violation(K + "extents", "the projected 3-D view does not have the source's extensions"); else for(L i = b0; i < b0 + r; ++i) for(L j = b1; j < b1 + q; ++j) for(L k = b2; k < b2 + t; ++k) if(pv[i][j][k] != f(A3[i][j][k])) { violation(K + "value", "3-D projected element differs"); i = b0 + r; j = b1 + q; break; } break; }
+	}
+	nontrivial(true);
+}
+#endif
+
 int main(int argc, char** argv) {
 	cfg.maxD = 3;
 	return main_loop(argc, argv, [&](Case& c) {
 		static bool init = false; if(!init) { init = true; auto& a = st().args; for(std::size_t i = 0; i + 1 < a.size(); ++i) { if(a[i] == "--maxext") cfg.max_ext = std::atoi(a[i + 1].c_str()); if(a[i] == "--maxops") cfg.max_ops = std::atoi(a[i + 1].c_str()); } }
 		if(c.k % 64 == 5) { reinterpret_ratio_probe(c.rng); return; }
 		if(c.k % 64 == 37) { explicit_conversion_probe(c.rng); return; }
+#if C12_E == 0
+		if(c.k % 64 == 21 || c.k % 64 == 53) { rebased_projection_probe(c.rng); return; }
+#endif
 		Prog p = gen_prog(c.rng, cfg); for(auto& o : p.ops) if(o.cat == 1 && c.rng.chance(1, 2)) o.cat = 0;
 		switch(p.root.size()) { case 1: one<1>(c, p); break; case 2: one<2>(c, p); break; default: one<3>(c, p); break; }
 	});
